@@ -8,6 +8,7 @@ import (
 	"bytes"
 	"fmt"
 	"math/rand/v2"
+	"strings"
 	"testing"
 
 	gedcom "github.com/elliotchance/gedcom/v39"
@@ -65,7 +66,7 @@ func applyStructuralFaults(r *rand.Rand, g *Graph) []string {
 		}
 		f := pick(r, g.Families)
 		p := pick(r, g.People)
-		kind := r.IntN(16)
+		kind := r.IntN(18)
 		switch kind {
 		case 0:
 			applied = append(applied, "missing-spouse-record")
@@ -144,6 +145,19 @@ func applyStructuralFaults(r *rand.Rand, g *Graph) []string {
 			applied = append(applied, "odd-dates")
 			p.Events = append(p.Events, Event{Tag: "BIRT", Date: pick(r, []string{"32 Jan 1900", "0", "BET", "from to", "99999", "Abt.", "1 1 1", "Feb 30 2001", "-5", "1900 BC"})},
 				Event{Tag: "DEAT", Date: pick(r, []string{"garbage", "AND", "Aft.", "between and", "3000"})})
+		case 15:
+			// decodable and legal; its page's file name exceeds what a file
+			// system accepts, so the writer fails on that one page
+			applied = append(applied, "very-long-name")
+			p.Names = []string{strings.Repeat("Maria Anna ", 30) + "/" + strings.Repeat("Habsburg", 8) + "/"}
+		case 16:
+			// legal GEDCOM 5.5: the age of the husband/wife at a family event
+			applied = append(applied, "role-substructure-in-family-event")
+			f.Lines = append(f.Lines, "1 "+pick(r, []string{"MARR", "DIV", "ENGA", "EVEN"}), "2 DATE 1 Jan 1900",
+				"2 HUSB", "3 AGE 25y", "2 WIFE", "3 AGE 22y")
+			if r.IntN(3) == 0 {
+				f.Lines = append(f.Lines, "2 CHIL @"+p.Ptr+"@")
+			}
 		default:
 			applied = append(applied, "pointerless-records")
 			p.Lines = append(p.Lines, "0 INDI", "1 NAME No /Pointer/", "0 FAM", "1 HUSB @"+p.Ptr+"@")
@@ -171,6 +185,7 @@ func genCommandCase(prop, tier string, r *rand.Rand) *Case {
 	case 1, 2, 3:
 		cmd.Command = "publish"
 		c.Publish = &PublishCfg{Options: genPubOptions(r, []string{"show", "hide", "placeholder"}), Jobs: pick(r, []int{1, 1, 2, 8})}
+		c.Publish.Options.NameLimit = 255
 	case 4, 5:
 		cmd.Command = "diff"
 		g2 := Derive(r, g, o)
@@ -198,6 +213,23 @@ func genCommandCase(prop, tier string, r *rand.Rand) *Case {
 		cmd.Command = "query"
 		cmd.Query = pick(r, exampleQueries)
 		cmd.Format = pick(r, []string{"json", "pretty-json", "csv", "gedcom", "html"})
+		if r.IntN(5) == 0 {
+			// the documented "merge two GEDCOM files" command: a second file,
+			// the same one or a revision of it
+			cmd.Query = `MergeDocumentsAndIndividuals(Document1, Document2)`
+			if r.IntN(2) == 0 {
+				c.Docs = append(c.Docs, c.Docs[0])
+			} else {
+				g2 := Derive(r, g, o)
+				if r.IntN(2) == 0 {
+					applyStructuralFaults(r, g2)
+				}
+				c.Docs = append(c.Docs, g2.Text())
+			}
+			if r.IntN(3) > 0 {
+				cmd.Format = "gedcom"
+			}
+		}
 	}
 	c.History = nil
 	c.Command = cmd
@@ -227,6 +259,11 @@ func runCommandCase(t *testing.T, c *Case) *CaseResult {
 		cr.Valid = true
 		cr.Recorded = &run.res.Recorded
 		cr.Probes["visibility="+c.Publish.Options.Visibility]++
+		for _, e := range run.events {
+			if e.Err == errNameTooLong.Error() {
+				cr.count("storage.file_name_too_long", 1)
+			}
+		}
 		outcomeViolation(cr, prop, &run.res, "publish "+c.Publish.Options.Visibility)
 	case "diff":
 		run, ok := runCompare(t, cr, prop, c, *c.Compare, c.Sim)
@@ -240,6 +277,13 @@ func runCommandCase(t *testing.T, c *Case) *CaseResult {
 		doc, err := decode(c.Docs[0])
 		if err != nil {
 			return cr
+		}
+		var doc2 *gedcom.Document
+		if cmd.Command == "query" && len(c.Docs) > 1 {
+			if doc2, err = decode(c.Docs[1]); err != nil {
+				return cr
+			}
+			cr.Probes["query=merge"]++
 		}
 		cr.Valid = true
 		sim := c.Sim
@@ -257,7 +301,11 @@ func runCommandCase(t *testing.T, c *Case) *CaseResult {
 				fmt.Fprintln(&out, "error:", err)
 				return
 			}
-			result, err := engine.Evaluate([]*gedcom.Document{doc})
+			docs := []*gedcom.Document{doc}
+			if doc2 != nil {
+				docs = append(docs, doc2)
+			}
+			result, err := engine.Evaluate(docs)
 			if err != nil {
 				fmt.Fprintln(&out, "error:", err)
 				return
